@@ -1359,6 +1359,8 @@ class NativeMethod:
                     "index", "count", "setdefault", "popitem", "strip", "split", "startswith", "endswith", "join", "lower",
                     "upper", "encode", "replace", "isupper", "union", "intersection", "difference", "issubset", "insert"):
             args = [interp.iterate(a) if isinstance(a, _Gen) else a for a in args]
+            if not hasattr(o, name):
+                raise PyRaise("AttributeError", f"'{type(o).__name__}' object has no attribute '{name}'")
             try:
                 return getattr(o, name)(*args, **kwargs)
             except KeyError as e:
